@@ -45,7 +45,7 @@ func TestConcurrentProgram(t *testing.T) {
 		t.Fatalf("build: %v\n%s\n%s", err, out, src)
 	}
 	run := func(seed uint64, mp, sp string, args ...string) (string, int) {
-		st := simrt.Step{Seed: seed, MapPolicy: mp, SchedPolicy: sp, JournalPath: filepath.Join(dir, "j.json"), OutDir: dir}
+		st := simrt.Step{Seed: seed, MapPolicy: mp, SchedPolicy: sp, JournalPath: filepath.Join(dir, "j.json"), OutDir: dir, StepBudget: 2_000_000}
 		b, _ := json.Marshal(st)
 		sp2 := filepath.Join(dir, "step.json")
 		os.WriteFile(sp2, b, 0o644)
@@ -62,6 +62,9 @@ func TestConcurrentProgram(t *testing.T) {
 	if code != 0 {
 		t.Fatalf("exit %d: %s", code, base)
 	}
+	if !strings.Contains(base, "select-sum 55 5") || !strings.Contains(base, "got hello") {
+		t.Fatalf("select semantics broken: %s", base)
+	}
 	if !strings.Contains(base, "abc[a b c]") || !strings.Contains(base, "once") || !strings.Contains(base, "0 false 0 0") || !strings.Contains(base, "1 2 x") || !strings.Contains(base, "true true") {
 		t.Fatalf("unexpected output: %s", base)
 	}
@@ -73,6 +76,9 @@ func TestConcurrentProgram(t *testing.T) {
 			t.Fatalf("seed %d not deterministic:\n%s\n%s", seed, a, b)
 		}
 		seen[a] = true
+		if !strings.Contains(a, "select-sum 55 5") || !strings.Contains(a, "got hello") {
+			t.Fatalf("seed %d: select semantics broken: %s", seed, a)
+		}
 		for _, want := range []string{"0", "1", "2", "3", "10", "20"} {
 			if !strings.Contains(a, want) {
 				t.Fatalf("seed %d lost an item: %s", seed, a)
